@@ -138,6 +138,13 @@ Definition echo_reply_ok (req rep : list N) : bool :=
   && list_eqb N.eqb (sp_dst_host rep) (sp_src_host req)
   && list_eqb N.eqb (sp_src_host rep) (sp_dst_host req).
 
+(** the SCMP message of [rep] is the echo reply to the echo request in [req] (same identifier,
+    sequence number and data), whoever sends it *)
+Definition echo_reply_payload_ok (req rep : list N) : bool :=
+  let q := sp_payload req in let r := sp_payload rep in
+  (sp_next_hdr rep =? spec_proto_scmp) && (nthN r 0 =? spec_echo_reply) && (nthN r 1 =? 0)
+  && list_eqb N.eqb (subN r 4 (lenN r)) (subN q 4 (lenN q)) && (lenN r =? lenN q).
+
 (** exactly one reply to a well-formed echo request, none to anything else ([nreplies]: what
     the handler / socket sent in response to [req]; [answerable]: the request's addresses are
     SCION host addresses and its path can be reversed -- otherwise no reply can be addressed).
